@@ -186,7 +186,9 @@ CHECKS = {
                  "a field of the requested dtype, never unwritten or reinterpreted bytes; guard_sound: CFUNCTION_DTYPES is "
                  "inside both compiled switches; multiply_table for all 196 dtype pairs; old_path_uninit/_garbage document "
                  "why the guard exists; product_fully_written (the cmultiply set-or-accumulate loop leaves no cell unwritten, "
-                 "for every number of terms). The run covers all dtypes x requests x 7 constructors, all ordered pairs x "
+                 "for every number of terms); dtype_is_promotion_of_all / old_dtype_depended_on_option: the inferred coefficient "
+                 "type is numpy's promotion over every supplied column, whether or not the column survives cleaning (D31). "
+                 "The run covers all dtypes x requests x 7 constructors, the inferred type of mixed columns, all ordered pairs x "
                  "{+,-,*} incl. broadcasting, **, shape functions, and zero-survivor results, with every fresh ndpoly buffer "
                  "pre-filled with a poison byte.",
          "note": BASE_NOTE + " The .pyx switch is read from the source text (no Cython here: the running .so may be older than an edited .pyx). Known finding D16 (size-0 arrays) is pinned by test_scalars."},
